@@ -81,6 +81,11 @@ Proof.
   rewrite IH. destruct (update_match now x t); reflexivity.
 Qed.
 
+Lemma revived_ren x b : revived (ren_arec x) (map ren_arec b) = revived x b.
+Proof.
+  induction b as [|r t IH]; simpl; [reflexivity|]. rewrite matches_ren. destruct (arec_matches r x); [reflexivity|exact IH].
+Qed.
+
 Lemma aou_ren now fu x c :
   add_or_update now fu (ren_arec x) (ren_cache c)
   = (ren_cache (fst (add_or_update now fu x c)), snd (add_or_update now fu x c)).
@@ -92,19 +97,20 @@ Proof.
   { simpl. destruct (a_flush x); [|reflexivity]. rewrite !map_map. apply map_ext. intros r. apply flush_ren. }
   assert (Hgen : match update_match now (ren_arec x)
                          (if a_flush (ren_arec x) then map (flush_one now (ren_arec x)) (map ren_arec b) else map ren_arec b) with
-                 | Some b2 => (aset k b2 (ren_cache c), false)
+                 | Some b2 => (aset k b2 (ren_cache c), revived (ren_arec x)
+                                  (if a_flush (ren_arec x) then map (flush_one now (ren_arec x)) (map ren_arec b) else map ren_arec b))
                  | None => (aset k (ren_arec x ::
                            (if a_flush (ren_arec x) then map (flush_one now (ren_arec x)) (map ren_arec b) else map ren_arec b)) (ren_cache c), true)
                  end
                  = (ren_cache (fst (match update_match now x (if a_flush x then map (flush_one now x) b else b) with
-                                    | Some b2 => (aset k b2 c, false)
+                                    | Some b2 => (aset k b2 c, revived x (if a_flush x then map (flush_one now x) b else b))
                                     | None => (aset k (x :: (if a_flush x then map (flush_one now x) b else b)) c, true)
                                     end)),
                     snd (match update_match now x (if a_flush x then map (flush_one now x) b else b) with
-                         | Some b2 => (aset k b2 c, false)
+                         | Some b2 => (aset k b2 c, revived x (if a_flush x then map (flush_one now x) b else b))
                          | None => (aset k (x :: (if a_flush x then map (flush_one now x) b else b)) c, true)
                          end))).
-  { rewrite Hb1, update_ren.
+  { rewrite Hb1, update_ren, revived_ren.
     destruct (update_match now x (if a_flush x then map (flush_one now x) b else b)); simpl.
     - rewrite aset_ren. reflexivity.
     - rewrite <- aset_ren. reflexivity. }
@@ -342,7 +348,9 @@ Lemma exec_rerun_ren now s e q q0' rr :
                 map ren_cev (snd (fst (exec_rerun now (s, e, q) rr))), q')
              /\ map lowerq q' = map lowerq (snd (exec_rerun now (s, e, q) rr)).
 Proof.
-  intros Hq. unfold exec_rerun. simpl rr_host. simpl rr_delay. simpl rr_chan.
+  intros Hq. unfold exec_rerun. cbn [rr_host rr_delay rr_chan ren_rr ren_st s_res]. rewrite fc_lower.
+  destruct (find_res (lower (rr_host rr)) (s_res s)); [|exists q0'; split; [reflexivity|exact Hq]].
+  change (mkSt (ren_cache (s_cache s)) (s_res s) (map ren_rr (s_retr s)) (s_open s)) with (ren_st s).
   rewrite send_rearm_ren.
   destruct (send_and_rearm now (rr_host rr) (rr_delay rr) (rr_chan rr) s) as [s' qs] eqn:E. simpl.
   assert (Eq : qs = [host_query (rr_host rr)]) by (unfold send_and_rearm in E; inversion E; reflexivity).
